@@ -39,6 +39,24 @@ def run(ctx, drv):
                 runs.note_aborted(ctx, cfg, err)
             continue
         ctx.count("runs_" + cfg["name"])
+        if seeded and any(t[0] == "real" for t in cfg["spec"].types):
+            # the injected solutions were evaluated by the user before the run: while the initial population is set up, the problem
+            # function must not be called again with exactly their variables (a real-valued variable makes coincidences impossible)
+            pre, phase = [], 0
+            for e in tr.events:
+                if e[0] == "run" and phase == 0:
+                    phase = 1
+                elif e[0] == "step" and phase == 1:
+                    phase = 2
+                elif e[0] == "call":
+                    if phase == 0:
+                        pre.append(e[1])
+                    elif phase == 1 and e[1] in pre:
+                        ctx.fail("evaluated-solution-evaluated-again", dict(inp, argument=repr(e[1])[:200]), "called again during initialisation",
+                                 "not evaluated again", f"operators.InjectedPopulation / core.Algorithm.evaluate_all ({cfg['name']})")
+                        ctx.failures[-1]["input_class"] = "injected-evaluated"
+                        break
+            ctx.count("seeded_runs_checked_for_re_evaluation")
         segs = runs.segments(tr)
         prev_after = 0
         for j, sg in enumerate(segs):
@@ -97,15 +115,8 @@ def run(ctx, drv):
         nfes = []
 
         def go():
-            def on_alarm(signum, frame):
-                raise TimeoutError("run exceeded the watchdog")
-            old = signal.signal(signal.SIGALRM, on_alarm)
-            signal.alarm(20)
-            try:
+            with plat.watchdog(20, on_fire=lambda: TimeoutError("run exceeded the watchdog")):
                 alg.run(budget, callback=lambda a: nfes.append(a.nfe))
-            finally:
-                signal.alarm(0)
-                signal.signal(signal.SIGALRM, old)
         inp = {"algorithm": name, "problem": "sphere in 2 variables", "budget": budget}
         try:
             go()
